@@ -1,18 +1,18 @@
 /-
-Helper lemmas for C34: sticky TRANSIENT_FAILURE, for histories without a non-empty resolver update
-while in TRANSIENT_FAILURE (with such an update it fails: F13).
+Helper lemmas for C34: sticky TRANSIENT_FAILURE (code as of /repo 97a72f7, which repaired F13).
 -/
 import GrpcProofs.Lemmas.PickFirstReady
+import GrpcProofs.Lemmas.PickFirstAddr
 namespace GrpcProofs.Lemmas.PickFirstSticky
 open GrpcModel.PickFirst GrpcProofs.Lemmas.PickFirst GrpcProofs.Lemmas.PickFirstReady
 open GrpcModel.LbConnState (ConnState)
 
-/-- "in TRANSIENT_FAILURE because every address failed": the first pass is over, TRANSIENT_FAILURE
-    is the reported state, no SubConn is READY -/
+/-- "in TRANSIENT_FAILURE with a non-empty address list and no READY SubConn" — the situation after
+    every address failed (whether or not a new first pass has been started by a resolver update) -/
 structure InTF (s : St) : Prop where
   wf : WF s
   state : s.state = .tf
-  firstPass : s.firstPass = false
+  addrs : s.addrs ≠ []
   noReady : NoReady s
 
 /-- every state report in `evs` is TRANSIENT_FAILURE -/
@@ -54,43 +54,69 @@ theorem requestLoop_firstPass (fuel : Nat) (s : St) (ev : List Ev) :
             · left; exact hf
             · right; rw [(pushState_frame _ _ _).2.2.2.2.1]
 
-theorem inTF_requestConnection (s : St) (h : InTF s) :
-    InTF (requestConnection s).1 ∧ AllTF (requestConnection s).2 := by
-  obtain ⟨r1, r2⟩ := requestConnection_post s h.wf
-  have hm := requestConnection_mapPost s h.wf
-  refine ⟨⟨r1.wf, ?_, ?_, ?_⟩, allTF_of_onlyTF r2⟩
+theorem inTF_of_posts (s s' : St) (h : InTF s) (r1 : ReqPost s s') (hm : MapPost s s') : InTF s' := by
+  refine ⟨r1.wf, ?_, by rw [r1.addrs]; exact h.addrs, ?_⟩
   · rcases r1.state with e | e
     · rw [e]; exact h.state
     · exact e
-  · unfold requestConnection
-    split
-    · exact h.firstPass
-    · rcases requestLoop_firstPass (s.addrs.length + 1) s [] with e | e
-      · rw [e]; exact h.firstPass
-      · exact e
   · intro sc hsc hr
     obtain ⟨sc0, h0, r0⟩ := hm.raws sc hsc hr
     exact h.noReady sc0 h0 r0
 
-/-- ops that may end the sticky period (a SubConn became READY, or connected and dropped) or that the
-    partial statement excludes (a non-empty resolver update: F13) -/
-def excluded (s : St) : Op → Bool
-  | .update _ raw => !raw.isEmpty
+theorem inTF_requestConnection (s : St) (h : InTF s) :
+    InTF (requestConnection s).1 ∧ AllTF (requestConnection s).2 := by
+  obtain ⟨r1, r2⟩ := requestConnection_post s h.wf
+  exact ⟨inTF_of_posts s _ h r1 (requestConnection_mapPost s h.wf), allTF_of_onlyTF r2⟩
+
+theorem inTF_endFirstPass (s : St) (e : Nat) (h : InTF s) :
+    InTF (endFirstPass s e).1 ∧ AllTF (endFirstPass s e).2 := by
+  obtain ⟨r1, r2, _⟩ := endFirstPass_post s e h.wf
+  exact ⟨inTF_of_posts s _ h r1 (endFirstPass_mapPost s e), allTF_of_onlyTF r2⟩
+
+theorem inTF_startFirstPass (s : St) (h : InTF s) : InTF (startFirstPass s).1 ∧ AllTF (startFirstPass s).2 := by
+  unfold startFirstPass
+  apply inTF_requestConnection
+  refine ⟨?_, h.state, h.addrs, ?_⟩
+  · apply wf_of_keys s _ h.wf <;> simp [List.map_map, Function.comp_def]
+  · intro sc hsc
+    simp only [List.mem_map] at hsc
+    obtain ⟨x, hx, rfl⟩ := hsc
+    exact h.noReady x hx
+
+theorem preprocess_ne_nil (raw : List Addr) (h : raw ≠ []) : preprocess raw ≠ [] := by
+  intro he
+  have hp := (GrpcProofs.Lemmas.PickFirstAddr.interleave_spec (deDup raw)).1
+  unfold preprocess at he
+  rw [he] at hp
+  have hd : deDup raw = [] := List.Perm.eq_nil (hp.symm)
+  cases raw with
+  | nil => exact h rfl
+  | cons a t => simp [deDup, deDupAux] at hd
+
+/-- the ops that end the sticky period: a SubConn of the map becomes READY, or goes CONNECTING→IDLE
+    (connected and dropped, issue 7862) -/
+def ends (s : St) : Op → Bool
   | .sc id st _ => match activeSC s id with
     | some sd => st == .ready || (sd.raw == .connecting && st == .idle)
     | none => false
   | _ => false
 
-theorem inTF_step (s : St) (op : Op) (h : InTF s) (hok : opOk s op = true) (hex : excluded s op = false) :
-    AllTF (step s op).2.evs ∧ (op ≠ .close → InTF (step s op).1) := by
+/-- the resolver emptied the list: everything is torn down, the situation is over -/
+def emptied : Op → Bool
+  | .update _ raw => raw.isEmpty
+  | _ => false
+
+theorem inTF_step (s : St) (op : Op) (h : InTF s) (hok : opOk s op = true) (hex : ends s op = false) :
+    AllTF (step s op).2.evs ∧ (op ≠ .close → emptied op = false → InTF (step s op).1) := by
   cases op with
   | update hl raw =>
-    have hraw : raw.isEmpty = true := by simpa [excluded] using hex
-    simp only [step, updateCCS, hraw, if_true]
-    simp only [updateEmpty, closeSubConns, cancelTimer]
-    obtain ⟨e1, e2, e3, e4⟩ := resolverError_of_empty ({ s with timer := false, subConns := [], addrs := [], idx := 0, sticky := false, passLog := [], passSerial := s.passSerial + 1 } : St) rfl
-    refine ⟨?_, fun _ => ⟨⟨by rw [e3]; simp, by intro sc hsc; rw [e3] at hsc; simp at hsc, by rw [e3]; simp⟩, e1, ?_, ?_⟩⟩
-    · intro st p hm
+    simp only [step, updateCCS]
+    by_cases hraw : raw.isEmpty = true
+    · -- empty list: only the resolver error (TRANSIENT_FAILURE) is reported
+      simp only [hraw, if_true]
+      refine ⟨?_, fun _ he => by simp [emptied, hraw] at he⟩
+      simp only [updateEmpty, closeSubConns, cancelTimer]
+      intro st p hm
       rcases List.mem_append.mp hm with hm | hm
       · simp at hm
       · simp only [resolverError, pushState, forcePush] at hm
@@ -99,17 +125,50 @@ theorem inTF_step (s : St) (op : Op) (h : InTF s) (hok : opOk s op = true) (hex 
         · split at hm
           · simp at hm
           · simp only [List.mem_singleton, Ev.push.injEq] at hm; exact hm.1
-    · simp only [resolverError, pushState, forcePush]
-      split
-      · exact h.firstPass
-      · split <;> exact h.firstPass
-    · intro sc hsc; rw [e3] at hsc; simp at hsc
+    · -- any non-empty list: a new first pass starts, TRANSIENT_FAILURE stays
+      simp only [hraw, Bool.false_eq_true, if_false]
+      have hne : raw ≠ [] := by intro e; rw [e] at hraw; exact hraw rfl
+      have hw2 : WF ({ cancelTimer s with health := hl, addrs := preprocess raw, idx := 0, passLog := [], passSerial := (cancelTimer s).passSerial + 1 } : St) :=
+        wf_congr s _ h.wf rfl rfl
+      have hp : prevReadyAddr { cancelTimer s with health := hl } = none := by
+        unfold prevReadyAddr
+        cases hc : currentAddress { cancelTimer s with health := hl } with
+        | none => rfl
+        | some a =>
+          simp only
+          cases hg : getSC { cancelTimer s with health := hl } a with
+          | none => simp
+          | some sc =>
+            have hm := (getSC_mem _ a sc hg).1
+            have : sc.raw ≠ .ready := h.noReady sc hm
+            simp [this]
+      have hlen : (cancelTimer s).addrs.length ≠ 0 := by
+        show s.addrs.length ≠ 0
+        intro e; exact h.addrs (List.eq_nil_of_length_eq_zero e)
+      have hr : InTF (reconcile ({ cancelTimer s with health := hl, addrs := preprocess raw, idx := 0, passLog := [], passSerial := (cancelTimer s).passSerial + 1 } : St) (preprocess raw)).1 := by
+        refine ⟨wf_reconcile _ _ hw2, h.state, preprocess_ne_nil raw hne, ?_⟩
+        intro sc hsc
+        simp only [reconcile, List.mem_filter] at hsc
+        exact h.noReady sc hsc.1
+      simp only [updateNonEmpty, hp, Bool.false_eq_true, if_false, Option.isSome_none]
+      have ht : updateTail (reconcile ({ cancelTimer s with health := hl, addrs := preprocess raw, idx := 0, passLog := [], passSerial := (cancelTimer s).passSerial + 1 } : St) (preprocess raw)).1 false (cancelTimer s).addrs.length
+          = startFirstPass (reconcile ({ cancelTimer s with health := hl, addrs := preprocess raw, idx := 0, passLog := [], passSerial := (cancelTimer s).passSerial + 1 } : St) (preprocess raw)).1 := by
+        have hst := hr.state
+        simp only [updateTail, hst, hlen, Bool.false_eq_true, false_or, or_false]
+        simp
+      rw [ht]
+      obtain ⟨a, b⟩ := inTF_startFirstPass _ hr
+      refine ⟨?_, fun _ _ => a⟩
+      intro st p hm
+      rcases List.mem_append.mp hm with hm | hm
+      · simp [reconcile] at hm
+      · exact b st p hm
   | resErr =>
     simp only [step, resolverError]
     have hc : ¬ (s.state ≠ .tf ∧ s.addrs.length > 0) := by rw [h.state]; simp
     rw [if_neg hc]
-    obtain ⟨a, b, _, _, e, _⟩ := pushState_frame s .tf .resErr
-    refine ⟨?_, fun _ => ⟨wf_congr s _ h.wf a b, pushState_state _ _ _, by rw [e]; exact h.firstPass,
+    obtain ⟨a, b, c, _⟩ := pushState_frame s .tf .resErr
+    refine ⟨?_, fun _ _ => ⟨wf_congr s _ h.wf a b, pushState_state _ _ _, by rw [c]; exact h.addrs,
       fun sc hsc => h.noReady sc (a ▸ hsc)⟩⟩
     intro st p hm
     simp only [pushState, forcePush] at hm
@@ -119,12 +178,12 @@ theorem inTF_step (s : St) (op : Op) (h : InTF s) (hok : opOk s op = true) (hex 
   | sc id st err =>
     simp only [step, scState]
     cases ha : activeSC s id with
-    | none => exact ⟨allTF_nil, fun _ => h⟩
+    | none => exact ⟨allTF_nil, fun _ _ => h⟩
     | some sd0 =>
       simp only
       obtain ⟨hm0, _⟩ := activeSC_mem s id sd0 ha
       have hnr0 := h.noReady sd0 hm0
-      simp only [excluded, ha, Bool.or_eq_false_iff, Bool.and_eq_false_iff, beq_eq_false_iff_ne, ne_eq] at hex
+      simp only [ends, ha, Bool.or_eq_false_iff, Bool.and_eq_false_iff, beq_eq_false_iff_ne, ne_eq] at hex
       have hok' : st ≠ .shutdown := by
         simp only [opOk, ha, Option.isNone_some, Bool.or_false, Bool.and_eq_true, bne_iff_ne, ne_eq] at hok
         exact hok.2
@@ -134,42 +193,70 @@ theorem inTF_step (s : St) (op : Op) (h : InTF s) (hok : opOk s op = true) (hex 
         · exact h1 hc.1
         · exact h1 hc.2
       simp only [hnot, if_false]
-      have hfp : (setSC s (sd0.withRaw st)).firstPass = false := by rw [(setSC_frame _ _).2.2.2.2.2.2.2.1]; exact h.firstPass
-      simp only [hfp, Bool.false_eq_true, if_false]
-      -- after the first pass: keep re-connecting
       have hw1 := wf_setSC_replace s sd0 (sd0.withRaw st) h.wf hm0 rfl rfl
       have hm1 : sd0.withRaw st ∈ (setSC s (sd0.withRaw st)).subConns := by
         rw [mem_setSC_replace s sd0 (sd0.withRaw st) h.wf hm0 rfl rfl]; exact Or.inl rfl
       have hin1 : InTF (setSC s (sd0.withRaw st)) := by
-        refine ⟨hw1, by rw [(setSC_frame _ _).2.2.2.2.1]; exact h.state, hfp, ?_⟩
+        refine ⟨hw1, by rw [(setSC_frame _ _).2.2.2.2.1]; exact h.state, by rw [(setSC_frame _ _).1]; exact h.addrs, ?_⟩
         exact noReady_setSC s sd0 (sd0.withRaw st) h.wf hm0 rfl rfl h.noReady hex.1
-      cases st with
-      | tf =>
-        simp only [scLater]
-        have hin2 : InTF (setSC { setSC s (sd0.withRaw .tf) with numTF := ((setSC s (sd0.withRaw .tf)).numTF + 1) % (setSC s (sd0.withRaw .tf)).subConns.length } { sd0.withRaw .tf with lastErr := err }) := by
-          have hw0 : WF ({ setSC s (sd0.withRaw .tf) with numTF := ((setSC s (sd0.withRaw .tf)).numTF + 1) % (setSC s (sd0.withRaw .tf)).subConns.length } : St) := wf_congr _ _ hw1 rfl rfl
-          refine ⟨wf_setSC_replace _ (sd0.withRaw .tf) _ hw0 hm1 rfl rfl, ?_, ?_, ?_⟩
-          · rw [(setSC_frame _ _).2.2.2.2.1]; exact hin1.state
-          · rw [(setSC_frame _ _).2.2.2.2.2.2.2.1]; exact hin1.firstPass
-          · exact noReady_setSC _ (sd0.withRaw .tf) _ hw0 hm1 rfl rfl hin1.noReady (by show ConnState.tf ≠ ConnState.ready; decide)
-        split
-        · obtain ⟨a, b, _, _, e, _⟩ := pushState_frame (setSC { setSC s (sd0.withRaw .tf) with numTF := ((setSC s (sd0.withRaw .tf)).numTF + 1) % (setSC s (sd0.withRaw .tf)).subConns.length } { sd0.withRaw .tf with lastErr := err }) .tf (.connErr err)
-          refine ⟨?_, fun _ => ⟨wf_congr _ _ hin2.wf a b, pushState_state _ _ _, by rw [e]; exact hin2.firstPass,
-            fun sc hsc => hin2.noReady sc (a ▸ hsc)⟩⟩
-          intro st p hm
-          simp only [pushState, forcePush] at hm
-          split at hm
-          · simp at hm
-          · simp only [List.mem_singleton, Ev.push.injEq] at hm; exact hm.1
-        · exact ⟨allTF_nil, fun _ => hin2⟩
-      | idle => exact ⟨by intro st p hm; simp [scLater] at hm, fun _ => hin1⟩
-      | connecting => exact ⟨allTF_nil, fun _ => hin1⟩
-      | ready => exact absurd rfl hex.1
-      | shutdown => exact absurd rfl hok'
+      split
+      · -- a first pass is running (started by a resolver update received in TRANSIENT_FAILURE)
+        cases st with
+        | connecting =>
+          -- the repaired line: nothing is reported while the balancer is in TRANSIENT_FAILURE
+          simp only [scFirstPass, hin1.state, ne_eq, not_true_eq_false, and_false, if_false]
+          exact ⟨allTF_nil, fun _ _ => hin1⟩
+        | tf =>
+          simp only [scFirstPass]
+          have hin2 : InTF (setSC (setSC s (sd0.withRaw .tf)) { sd0.withRaw .tf with lastErr := err, eff := .tf }) := by
+            refine ⟨wf_setSC_replace _ (sd0.withRaw .tf) _ hw1 hm1 rfl rfl, by rw [(setSC_frame _ _).2.2.2.2.1]; exact hin1.state,
+              by rw [(setSC_frame _ _).1]; exact hin1.addrs, ?_⟩
+            exact noReady_setSC _ (sd0.withRaw .tf) _ hw1 hm1 rfl rfl hin1.noReady (by show ConnState.tf ≠ ConnState.ready; decide)
+          split
+          · have hin3 : InTF (cancelTimer (setSC (setSC s (sd0.withRaw .tf)) { sd0.withRaw .tf with lastErr := err, eff := .tf })) :=
+              ⟨wf_congr _ _ hin2.wf rfl rfl, hin2.state, hin2.addrs, hin2.noReady⟩
+            obtain ⟨i1, i2, i3, _, i5, _⟩ := increment_frame (cancelTimer (setSC (setSC s (sd0.withRaw .tf)) { sd0.withRaw .tf with lastErr := err, eff := .tf }))
+            have hin4 : InTF (increment (cancelTimer (setSC (setSC s (sd0.withRaw .tf)) { sd0.withRaw .tf with lastErr := err, eff := .tf }))).1 :=
+              ⟨wf_congr _ _ hin3.wf i1 i2, by rw [i5]; exact hin3.state, by rw [i3]; exact hin3.addrs,
+                fun sc hsc => hin3.noReady sc (i1 ▸ hsc)⟩
+            split
+            · obtain ⟨a, b⟩ := inTF_requestConnection _ hin4
+              exact ⟨b, fun _ _ => a⟩
+            · obtain ⟨a, b⟩ := inTF_endFirstPass _ err hin4
+              exact ⟨b, fun _ _ => a⟩
+          · obtain ⟨a, b⟩ := inTF_endFirstPass _ err hin2
+            exact ⟨b, fun _ _ => a⟩
+        | idle => exact ⟨allTF_nil, fun _ _ => hin1⟩
+        | ready => exact absurd rfl hex.1
+        | shutdown => exact absurd rfl hok'
+      · -- after the first pass: keep re-connecting
+        cases st with
+        | tf =>
+          simp only [scLater]
+          have hin2 : InTF (setSC { setSC s (sd0.withRaw .tf) with numTF := ((setSC s (sd0.withRaw .tf)).numTF + 1) % (setSC s (sd0.withRaw .tf)).subConns.length } { sd0.withRaw .tf with lastErr := err }) := by
+            have hw0 : WF ({ setSC s (sd0.withRaw .tf) with numTF := ((setSC s (sd0.withRaw .tf)).numTF + 1) % (setSC s (sd0.withRaw .tf)).subConns.length } : St) := wf_congr _ _ hw1 rfl rfl
+            refine ⟨wf_setSC_replace _ (sd0.withRaw .tf) _ hw0 hm1 rfl rfl, ?_, ?_, ?_⟩
+            · rw [(setSC_frame _ _).2.2.2.2.1]; exact hin1.state
+            · rw [(setSC_frame _ _).1]; exact hin1.addrs
+            · exact noReady_setSC _ (sd0.withRaw .tf) _ hw0 hm1 rfl rfl hin1.noReady (by show ConnState.tf ≠ ConnState.ready; decide)
+          split
+          · obtain ⟨a, b, c, _⟩ := pushState_frame (setSC { setSC s (sd0.withRaw .tf) with numTF := ((setSC s (sd0.withRaw .tf)).numTF + 1) % (setSC s (sd0.withRaw .tf)).subConns.length } { sd0.withRaw .tf with lastErr := err }) .tf (.connErr err)
+            refine ⟨?_, fun _ _ => ⟨wf_congr _ _ hin2.wf a b, pushState_state _ _ _, by rw [c]; exact hin2.addrs,
+              fun sc hsc => hin2.noReady sc (a ▸ hsc)⟩⟩
+            intro st p hm
+            simp only [pushState, forcePush] at hm
+            split at hm
+            · simp at hm
+            · simp only [List.mem_singleton, Ev.push.injEq] at hm; exact hm.1
+          · exact ⟨allTF_nil, fun _ _ => hin2⟩
+        | idle => exact ⟨by intro st p hm; simp [scLater] at hm, fun _ _ => hin1⟩
+        | connecting => exact ⟨allTF_nil, fun _ _ => hin1⟩
+        | ready => exact absurd rfl hex.1
+        | shutdown => exact absurd rfl hok'
   | health id st err =>
     simp only [step, healthState]
     cases ha : activeSC s id with
-    | none => exact ⟨allTF_nil, fun _ => h⟩
+    | none => exact ⟨allTF_nil, fun _ _ => h⟩
     | some sd =>
       obtain ⟨hm0, _⟩ := activeSC_mem s id sd ha
       simp only [opOk, ha, Option.all_some, Bool.and_eq_true, beq_iff_eq] at hok
@@ -177,36 +264,52 @@ theorem inTF_step (s : St) (op : Op) (h : InTF s) (hok : opOk s op = true) (hex 
   | tick =>
     simp only [step, timerFire]
     split
-    · exact ⟨allTF_nil, fun _ => h⟩
-    · have h1 : InTF { s with timer := false } := ⟨wf_congr s _ h.wf rfl rfl, h.state, h.firstPass, h.noReady⟩
-      obtain ⟨i1, i2, _, _, i5, _, _, _, _, i10, _⟩ := increment_frame { s with timer := false }
+    · exact ⟨allTF_nil, fun _ _ => h⟩
+    · have h1 : InTF { s with timer := false } := ⟨wf_congr s _ h.wf rfl rfl, h.state, h.addrs, h.noReady⟩
+      obtain ⟨i1, i2, i3, _, i5, _⟩ := increment_frame { s with timer := false }
       have h2 : InTF (increment { s with timer := false }).1 :=
-        ⟨wf_congr _ _ h1.wf i1 i2, by rw [i5]; exact h1.state, by rw [i10]; exact h1.firstPass,
+        ⟨wf_congr _ _ h1.wf i1 i2, by rw [i5]; exact h1.state, by rw [i3]; exact h1.addrs,
           fun sc hsc => h1.noReady sc (i1 ▸ hsc)⟩
       split
       · obtain ⟨a, b⟩ := inTF_requestConnection _ h2
-        exact ⟨b, fun _ => a⟩
-      · exact ⟨allTF_nil, fun _ => h2⟩
+        exact ⟨b, fun _ _ => a⟩
+      · exact ⟨allTF_nil, fun _ _ => h2⟩
   | exitIdle =>
     simp only [step, exitIdle, h.state]
-    exact ⟨by intro st p hm; simp at hm, fun _ => by simpa using h⟩
+    exact ⟨by intro st p hm; simp at hm, fun _ _ => by simpa using h⟩
   | pick =>
     simp only [step]
     unfold pick
     split
     all_goals first
-      | exact ⟨allTF_nil, fun _ => h⟩
+      | exact ⟨allTF_nil, fun _ _ => h⟩
       | skip
     next used _ =>
       split
-      · exact ⟨allTF_nil, fun _ => h⟩
+      · exact ⟨allTF_nil, fun _ _ => h⟩
       · have : (exitIdle { s with picker := .idle true }) = ({ s with picker := .idle true }, []) := by
           simp [exitIdle, h.state]
         simp only [this]
-        exact ⟨allTF_nil, fun _ => ⟨wf_congr s _ h.wf rfl rfl, h.state, h.firstPass, h.noReady⟩⟩
+        exact ⟨allTF_nil, fun _ _ => ⟨wf_congr s _ h.wf rfl rfl, h.state, h.addrs, h.noReady⟩⟩
   | close =>
     refine ⟨?_, fun hne => absurd rfl hne⟩
     intro st p hm
     simp [step, close, closeSubConns, cancelTimer] at hm
+
+def isClose : Op → Bool
+  | .close => true
+  | _ => false
+
+/-- a continuation made of ops that neither end the sticky period nor tear the balancer down -/
+def Quiet : St → List Op → Prop
+  | _, [] => True
+  | s, op :: t => opOk s op = true ∧ ends s op = false ∧ isClose op = false ∧ emptied op = false ∧ Quiet (step s op).1 t
+
+theorem inTF_run (s : St) (ops : List Op) (h : InTF s) (hq : Quiet s ops) : InTF (run s ops) := by
+  induction ops generalizing s with
+  | nil => exact h
+  | cons op t ih =>
+    obtain ⟨h1, h2, h3, h4, h5⟩ := hq
+    exact ih _ ((inTF_step s op h h1 h2).2 (by intro e; rw [e] at h3; cases h3) h4) h5
 
 end GrpcProofs.Lemmas.PickFirstSticky
